@@ -51,14 +51,14 @@ theorem flatMap_map_snd (f : Sub → Sub × List Msg) (l : List Sub) :
   | cons x xs ih => simp [ih]
 
 /-- notifications of one `notify` op that go to subscriber `i` -/
-theorem notify_filter {cfg : Cfg} {st : State} {m : Mon} (h : Sim cfg st m) (a : Str) (i : Nat) :
-    ((st.subs.map (deliver cfg st a)).flatMap (·.2)).filter (fun msg => msg.sub == i) =
+theorem notify_filter {cfg : Cfg} {st : State} {m : Mon} (h : Sim cfg st m) (ov : List (Nat × Outcome)) (a : Str) (i : Nat) :
+    ((st.subs.map (deliver cfg st ov a)).flatMap (·.2)).filter (fun msg => msg.sub == i) =
       match m.recs i with
       | some r => if r.alive cfg m.now ∧ suffixMatch r.filter a = true
-                  then [⟨.notification a, i, r.notifyTo, st.modeOf r.notifyTo⟩] else []
+                  then [⟨.notification a, i, r.notifyTo, st.outcomeFor ov i r.notifyTo⟩] else []
       | none => [] := by
   rw [flatMap_map_snd, h.now_eq]
-  have hg : ∀ s : Sub, ∀ msg ∈ (deliver cfg st a s).2, msg.sub = s.id := fun s => deliver_msgs_sub
+  have hg : ∀ s : Sub, ∀ msg ∈ (deliver cfg st ov a s).2, msg.sub = s.id := fun s => deliver_msgs_sub
   by_cases hex : ∃ s ∈ st.subs, s.id = i
   · obtain ⟨s, hs, rfl⟩ := hex
     obtain ⟨hr, hc, hst⟩ := h.recOf s hs
@@ -87,7 +87,7 @@ theorem notify_filter {cfg : Cfg} {st : State} {m : Mon} (h : Sim cfg st m) (a :
       have := h.dead i r hm hn
       simp only [this, false_and, if_false]
 
-theorem endMsg_sub {cfg : Cfg} {st : State} {s : Sub} : ∀ msg ∈ endMsg cfg st s, msg.sub = s.id := by
+theorem endMsg_sub {cfg : Cfg} {st : State} {ov : List (Nat × Outcome)} {s : Sub} : ∀ msg ∈ endMsg cfg st ov s, msg.sub = s.id := by
   intro msg hm
   unfold endMsg at hm
   split at hm
@@ -95,14 +95,14 @@ theorem endMsg_sub {cfg : Cfg} {st : State} {s : Sub} : ∀ msg ∈ endMsg cfg s
   · cases hm
 
 /-- SubscriptionEnd messages of one `stop true` op that go to subscriber `i` -/
-theorem stop_filter {cfg : Cfg} {st : State} {m : Mon} (h : Sim cfg st m) (i : Nat) :
-    (st.subs.flatMap (endMsg cfg st)).filter (fun msg => msg.sub == i) =
+theorem stop_filter {cfg : Cfg} {st : State} {m : Mon} (h : Sim cfg st m) (ov : List (Nat × Outcome)) (i : Nat) :
+    (st.subs.flatMap (endMsg cfg st ov)).filter (fun msg => msg.sub == i) =
       match m.recs i with
       | some r => if r.alive cfg m.now
-                  then [⟨.subscriptionEnd, i, r.endTo.getD r.notifyTo, st.modeOf (r.endTo.getD r.notifyTo)⟩] else []
+                  then [⟨.subscriptionEnd, i, r.endTo.getD r.notifyTo, st.outcomeFor ov i (r.endTo.getD r.notifyTo)⟩] else []
       | none => [] := by
   rw [h.now_eq]
-  have hg : ∀ s : Sub, ∀ msg ∈ endMsg cfg st s, msg.sub = s.id := fun s => endMsg_sub
+  have hg : ∀ s : Sub, ∀ msg ∈ endMsg cfg st ov s, msg.sub = s.id := fun s => endMsg_sub
   by_cases hex : ∃ s ∈ st.subs, s.id = i
   · obtain ⟨s, hs, rfl⟩ := hex
     obtain ⟨hr, hc, hst⟩ := h.recOf s hs
@@ -226,13 +226,13 @@ theorem gone_step {cfg : Cfg} {st : State} {m : Mon} (h : Sim cfg st m) (op : Op
       by_cases hk : cfg.mkKey i = k
       · simp only [step, hf, Mon.step, Mon.gone, hk, if_true, hr, Option.map_some]; exact Or.inl trivial
       · simp only [step, hf, Mon.step, Mon.gone, hk, if_false, hr]; exact hg
-  | notify a =>
+  | notify a ov =>
     simp only [step, Mon.step, Mon.gone, hr, Option.map_some]
     split <;> exact hg
   | tick dt => simp only [step, Mon.step, Mon.gone, hr]; exact hg
   | setOutcome a o => simp only [step, Mon.step, Mon.gone, hr]; exact hg
   | housekeeping => simp only [step, Mon.step, Mon.gone, hr]; exact hg
-  | stop b => simp only [step, Mon.step, Mon.gone, hr, Option.map_some]; exact Or.inr trivial
+  | stop b ov => simp only [step, Mon.step, Mon.gone, hr, Option.map_some]; exact Or.inr trivial
 
 theorem gone_runBoth {cfg : Cfg} (hw : cfg.WF) (ops : List Op) {i : Nat} :
     ∀ (st : State) (m : Mon), Sim cfg st m → m.gone i → (runBoth cfg (st, m) ops).2.gone i := by
